@@ -175,6 +175,13 @@ fn pool_sizes(ctx: &Ctx) {
 
 /// progress reporting does not change the draws (f32 backends here; precision grid is C10's).
 fn progress_vs_plain(ctx: &Ctx) {
+    let (_, hung) = super::c10::with_bounded_reporter(|| progress_vs_plain_inner(ctx));
+    if hung {
+        ctx.violation(Violation::new("C07:progress-hangs", "run_progress: the progress reporter never exits although every chain finished", json!({"part": "progress"})));
+    }
+}
+
+fn progress_vs_plain_inner(ctx: &Ctx) {
     for seed in [7u64, 42] {
         let case = json!({"part": "progress", "seed": seed});
         ctx.evals(1);
